@@ -170,7 +170,7 @@ func (c *Ctx) basicLatinModel() (blProblems, *ast.FuncDecl) {
 			}
 			seg := p[i+1 : end]
 			lowEnd := rangesP + "[" + iv + "]"
-			if !seg.holds(lowEnd+"<128") {
+			if !seg.holds(lowEnd + "<128") {
 				if len(stores(seg)) > 0 {
 					add("array-indices-bounded", "runes of a range are stored without the test that the range starts below 128")
 				}
